@@ -148,7 +148,26 @@ pub fn damages(op: usize, text: &str, sites: &[Site], stream: &Stream) -> Vec<(S
             for s in sites {
                 if let Site::Quoted { open, double: true, .. } = s {
                     let at = *open + 1;
-                    for (esc, class) in [("\\q", "unknown-escape"), ("\\xZ1", "truncated-x"), ("\\u12G4", "truncated-u"), ("\\U0001F60G", "truncated-U"), ("\\x4", "short-x")] {
+                    for (esc, class) in [
+                        ("\\q", "unknown-escape"),
+                        ("\\xZ1", "truncated-x"),
+                        ("\\u12G4", "truncated-u"),
+                        ("\\U0001F60G", "truncated-U"),
+                        ("\\x4", "short-x"),
+                        // a non-hex character in every digit position class: sign, blank, underscore
+                        ("\\x+4", "non-hex-digit"),
+                        ("\\x-4", "non-hex-digit"),
+                        ("\\x4+", "non-hex-digit"),
+                        ("\\x 4", "non-hex-digit"),
+                        ("\\u+041", "non-hex-digit"),
+                        ("\\u00_1", "non-hex-digit"),
+                        ("\\u-041", "non-hex-digit"),
+                        ("\\U+0000041", "non-hex-digit"),
+                        ("\\U0000004 ", "non-hex-digit"),
+                        ("\\c", "unknown-escape"),
+                        ("\\'", "unknown-escape"),
+                        ("\\1", "unknown-escape"),
+                    ] {
                         // `\x4` directly before a non-hex character (or the closing quote)
                         if esc == "\\x4" && b.get(at).map(|c| c.is_ascii_hexdigit()).unwrap_or(false) {
                             continue;
@@ -277,8 +296,8 @@ impl Property for C06P {
          site recorded by the renderer: D01 cut before a closing quote, D02 cut before a flow closer, D03 swap ] and }, D04 tab instead \
          of the indentation of the first entry of a nested block collection, D05 re-indent a non-first entry strictly between parent and \
          own indentation (gap >= 2), D06 put a flow continuation line at the enclosing block's indentation (sub-classes by first token), \
-         D07 break a quoted implicit key over two lines, D08 lengthen an implicit key (plain / quoted) by 1100 characters, D09 append a \
-         second quoted / flow root after a completed quoted / flow root, D10 unknown escape letter and truncated \\x \\u \\U, D11 replace \
+         D07 break a quoted implicit key (of a block mapping, or of a single pair in a flow sequence) over two lines, D08 lengthen an implicit key (plain / quoted) by 1100 characters, D09 append a \
+         second quoted / flow root after a completed quoted / flow root, D10 unknown escape letters and \\x \\u \\U with a missing or non-hexadecimal digit (letter, sign, blank, underscore), D11 replace \
          a plain value by an alias to a name never anchored, D12 prefix a value with '!zz!x', D13 two %YAML lines, D14 a directive before \
          a bare document or at the end of the stream, D15 text after '...' on the same line. Plus the 94 error cases of the test suite. \
          Oracle: iteration ends in Err on StrInput and BufferedInput. The operator is chosen among those with a site in the stream. \
@@ -292,9 +311,14 @@ impl Property for C06P {
         vec![
             StreamSpec::new("damaged", cases(tier).div_ceil(BLOCK), false, &format!("{} rendered streams x one damage", cases(tier))),
             StreamSpec::new("corpus-errors", 1, true, "the 94 error cases of the yaml-test-suite"),
+            StreamSpec::new("flow-pair-keys", 1, true, "every flow sequence of 1..3 entries over 10 entry shapes, in 3 contexts, with each single-pair implicit key (quoted or plain) broken over two lines or separated from its ':' by a break (D07 in flow sequences)"),
         ]
     }
     fn run_block(&self, ctx: &mut Ctx, stream: &str, block: u64) {
+        if stream == "flow-pair-keys" {
+            flow_pair_keys(ctx);
+            return;
+        }
         if stream == "corpus-errors" {
             for c in corpus().iter().filter(|c| c.fail) {
                 let json = || json!({"corpus": c.id});
@@ -334,5 +358,65 @@ impl Property for C06P {
         let op = case["op"].as_u64().unwrap_or(0) as u8;
         let site = case["site"].as_u64().unwrap_or(0) as u16;
         ctx.eval(&|| case.clone(), |info| check(info, &t, &l, op, site))
+    }
+}
+
+
+/// D07 inside flow sequences, enumerated: the implicit key of a single pair must stay on one line,
+/// whatever precedes it in the sequence (explicit `?` entries, nested collections, other pairs).
+const FLOW_ENTRIES: [&str; 10] = ["a", "? a : b", "? a", "a: b", "\"q k\": v", "'s k': v", "[x]: v", "{a: b}", ": v", "p q: v"];
+
+fn flow_pair_keys(ctx: &mut Ctx) {
+    let mut seqs: Vec<Vec<usize>> = vec![];
+    for a in 0..10 {
+        seqs.push(vec![a]);
+        for b in 0..10 {
+            seqs.push(vec![a, b]);
+            for c in 0..10 {
+                seqs.push(vec![a, b, c]);
+            }
+        }
+    }
+    for seq in seqs {
+        for (ci, (pre, post)) in [("", "\n"), ("k: ", "\n"), ("- x\n- ", "\n")].iter().enumerate() {
+            let entries: Vec<&str> = seq.iter().map(|i| FLOW_ENTRIES[*i]).collect();
+            let good = format!("{pre}[{}]{post}", entries.join(", "));
+            if parse_with(Backend::Str, &good).error.is_some() {
+                continue; // the undamaged text must be accepted (C03 judges that)
+            }
+            for (k, e) in entries.iter().enumerate() {
+                // only implicit single pairs with a key that has an interior blank
+                let damaged_entries: Vec<String> = match *e {
+                    "\"q k\": v" => vec!["\"q\n    k\": v".into(), "\"q k\"\n    : v".into()],
+                    "'s k': v" => vec!["'s\n    k': v".into(), "'s k'\n    : v".into()],
+                    "p q: v" => vec!["p\n    q: v".into(), "p q\n    : v".into()],
+                    "a: b" => vec!["a\n    : b".into()],
+                    "[x]: v" => vec!["[x]\n    : v".into()],
+                    _ => vec![],
+                };
+                for d in damaged_entries {
+                    let mut es: Vec<String> = entries.iter().map(|x| x.to_string()).collect();
+                    es[k] = d;
+                    let bad = format!("{pre}[{}]{post}", es.join(", "));
+                    let json = || json!({"must_reject": bad, "context": ci});
+                    let r = ctx.eval(&json, |info| {
+                        for b in [Backend::Str, Backend::Buffered] {
+                            ensure!(
+                                parse_with(b, &bad).error.is_some(),
+                                "accepted:D07-quoted-implicit-key-spans-lines:flow-single-pair",
+                                "{}: a single pair whose implicit key spans lines is accepted: {bad:?} (undamaged: {good:?})",
+                                b.name()
+                            );
+                        }
+                        info.nontrivial(&bad);
+                        info.class("D07-flow-single-pair-key");
+                        Ok(())
+                    });
+                    if let Err(f) = r {
+                        ctx.record(json(), &f);
+                    }
+                }
+            }
+        }
     }
 }
